@@ -83,7 +83,7 @@ Section Premises.
 
   (* ---------- DeleteNode ---------- *)
   Theorem leaves_after_delete_holds sch :
-    leaves_after_delete_stmt env ko sch no_opts (sem sch) (obs sch) (c13_inv2 env fo ko sch)
+    leaves_after_delete_stmt env fo ko sch no_opts (sem sch) (obs sch) (c13_inv2 env fo ko sch)
       (fun p => delete_guardb env fo ko sch p = true).
   Proof.
     intros t p t' m [Hsch Hroot] Hguard Hdel Hobs.
@@ -101,7 +101,7 @@ Section Premises.
       + exists []. split; [reflexivity|]. intros q w. rewrite (spec_delete_in (sem (SCont sfs)) (L items) [] q w).
         cbn [ps_alts schema_sem]. unfold sch_alts. rewrite Eni. unfold node_at in Eni. simpl in Eni. injection Eni as <-.
         cbn [ni_alts under existsb is_prefix elems_prefix orb]. split; [intros [] | intros [_ H]; discriminate].
-    - destruct (del_rec env ko false (2 * length (e0 :: prest) + 2) (SCont sfs) (Some (TCont fs)) (e0 :: prest)) as [c' r] eqn:Er.
+    - destruct (del_rec env fo ko false (2 * length (e0 :: prest) + 2) (SCont sfs) (Some (TCont fs)) (e0 :: prest)) as [c' r] eqn:Er.
       injection Hdel as Ht ->.
       destruct (del_struct_leaves env fo ko (2 * length (e0 :: prest) + 2) (SCont sfs) sfs fs (e0 :: prest) [] c'
                   (2 * length (e0 :: prest) + 2) (2 * length (e0 :: prest) + 2) ni kl items
